@@ -490,6 +490,12 @@ def render_crate(types, methods):
     L.append("    #[diplomat::opaque]\n    pub struct Op(pub u32);")
     L.append("    impl Op {\n        pub fn new(id: u32) -> Box<Op> { Box::new(Op(id)) }\n        pub fn id(&self) -> u32 { self.0 }\n"
              "        #[diplomat::attr(supports = comparators, comparison)]\n        pub fn compare(&self, other: &Op) -> core::cmp::Ordering { self.0.cmp(&other.0) }\n    }")
+    # arithmetic special methods on a non-opaque type: C++ derives the compound operators (`-=` ...) from them
+    L.append("    #[diplomat::attr(not(supports = arithmetic), disable)]\n    pub struct Ar { pub x: i32, pub y: i32 }")
+    L.append("    impl Ar {\n        #[diplomat::attr(auto, add)]\n        pub fn add(self, o: Self) -> Self { Ar { x: self.x + o.x, y: self.y + o.y } }\n"
+             "        #[diplomat::attr(auto, sub)]\n        pub fn sub(self, o: Self) -> Self { Ar { x: self.x - o.x, y: self.y - o.y } }\n"
+             "        #[diplomat::attr(auto, mul)]\n        pub fn mul(self, o: Self) -> Self { Ar { x: self.x * o.x, y: self.y * o.y } }\n"
+             "        #[diplomat::attr(auto, div)]\n        pub fn div(self, o: Self) -> Self { Ar { x: self.x / o.x, y: self.y / o.y } }\n    }")
     for e in types["enums"]:
         L.append(e.decl())
     for st in types["structs"]:
@@ -888,6 +894,21 @@ def expected_line_cpp(m, j, case):
     return e
 
 
+AR_PAIRS = [((20, 6), (6, 3)), ((7, -40), (-3, 9)), ((0, 100), (5, -7))]
+
+
+def ar_expected():
+    """binary and compound operators of the struct with arithmetic special methods (Rust i32 semantics: `/` truncates)"""
+    out = []
+    tr = lambda a, b: int(a / b)
+    for (ax, ay), (bx, by) in AR_PAIRS:
+        vals = []
+        for f in (lambda a, b: a + b, lambda a, b: a - b, lambda a, b: a * b, tr):
+            vals.append("%d,%d" % (f(ax, bx), f(ay, by)))
+        out.append("AR %d,%d %d,%d add=%s sub=%s mul=%s div=%s addeq=%s subeq=%s muleq=%s diveq=%s" % ((ax, ay, bx, by) + tuple(vals) + tuple(vals)))
+    return out
+
+
 def cmp_expected():
     out = []
     for x, y in ((1, 1), (1, 2), (2, 1), (0, 4000000000)):
@@ -993,6 +1014,12 @@ def render_cpp_drivers(types, methods, headers, nshards=16):
     # the comparison special method: all six operators over ordered / equal / reversed pairs
     L.append("static void cmp_block() { for (auto [x, y] : {std::pair<uint32_t, uint32_t>{1, 1}, {1, 2}, {2, 1}, {0, 4000000000u}}) { auto a = Op::new_(x); auto b = Op::new_(y);"
              ' printf("CMP %u %u eq=%d ne=%d lt=%d le=%d gt=%d ge=%d\\n", x, y, (int)(*a == *b), (int)(*a != *b), (int)(*a < *b), (int)(*a <= *b), (int)(*a > *b), (int)(*a >= *b)); } }')
+    L.append("static void ar_block() {")
+    for (ax, ay), (bx, by) in AR_PAIRS:
+        L.append("    { Ar a{%d, %d}; Ar b{%d, %d}; Ar s = a + b, d = a - b, m = a * b, q = a / b; Ar c1 = a; c1 += b; Ar c2 = a; c2 -= b; Ar c3 = a; c3 *= b; Ar c4 = a; c4 /= b;" % (ax, ay, bx, by))
+        L.append('      printf("AR %d,%d %d,%d add=%d,%d sub=%d,%d mul=%d,%d div=%d,%d addeq=%d,%d subeq=%d,%d muleq=%d,%d diveq=%d,%d\\n", a.x, a.y, b.x, b.y, s.x, s.y, d.x, d.y, m.x, m.y, q.x, q.y, '
+                 'c1.x, c1.y, c2.x, c2.y, c3.x, c3.y, c4.x, c4.y); }')
+    L.append("}")
     for k in range(nshards):
         L.append("void run_shard_%d(void);" % k)
     L.append("int main() {")
@@ -1001,6 +1028,7 @@ def render_cpp_drivers(types, methods, headers, nshards=16):
     for (m, k) in sweeps:
         L.append("    utf8_%d_%d();" % (m["i"], k))
     L.append("    cmp_block();")
+    L.append("    ar_block();")
     L.append('    printf("DONE\\n");\n    return 0;\n}')
     shards.append("\n".join(L) + "\n")
     order = []
